@@ -56,6 +56,12 @@ def generate(repo, verif, build_dbus_dir):
     mult = re.search(r"^#define REBUILD_MULTIPLIER\s+(\S+)", hsh, re.M)
     if not (ds and mk and hi and small and mult):
         raise Shape("hash table initial parameters not found")
+    dflt = re.search(r"^#define _DBUS_DEFAULT_TIMEOUT_VALUE\s+(.+)$", open(os.path.join(repo, "dbus", "dbus-connection-internal.h")).read(), re.M)
+    tinf = re.search(r"^#define DBUS_TIMEOUT_INFINITE\s+(.+)$", open(os.path.join(repo, "dbus", "dbus-pending-call.h")).read(), re.M)
+    pcn = function_text(open(os.path.join(repo, "dbus", "dbus-pending-call.c"), encoding="utf-8", errors="replace").read(),
+                        r"^_dbus_pending_call_new_unlocked\s*\([^)]*\)\s*\{")
+    if not (dflt and tinf) or "timeout_milliseconds == -1" not in pcn or "timeout_milliseconds != DBUS_TIMEOUT_INFINITE" not in pcn:
+        raise Shape("timeout defaults have an unknown shape")
     prog = r'''
 #include <stdio.h>
 #include <stdint.h>
@@ -85,9 +91,11 @@ int main (void)
   for (i = 0; i < sizeof ks / sizeof ks[0]; i++) printf ("; (%%llu, %%ld)", ks[i], (long) (RANDOM_INDEX (table, (void *) (intptr_t) (int) (dbus_uint32_t) ks[i])));
   printf ("].\n");
   printf ("Definition hash_rebuild_threshold : N := %%d.\n", tab.hi_rebuild_size);
+  printf ("Definition c_default_timeout_value : N := %%d.\n", (int) (%s));
+  printf ("Definition c_timeout_infinite : N := %%d.\n", (int) (%s));
   return 0;
 }
-''' % (body, small.group(1), mult.group(1), rnd, ds.group(1), mk.group(1), hi.group(1), init_expr)
+''' % (body, small.group(1), mult.group(1), rnd, ds.group(1), mk.group(1), hi.group(1), init_expr, dflt.group(1), tinf.group(1))
     d = os.path.join(os.environ.get("VERIF_BUILD", os.path.join(verif, "build")), "gen")
     os.makedirs(d, exist_ok=True)
     src = os.path.join(d, "pending_gen.c")
